@@ -216,6 +216,10 @@ def check_predict(w, rep, f, mod):
     (fp, seen) = capture_calls(w, "shadow_if_necessary", lambda: w.callf(mod["predict"]), self_is=Mr)
     good = bool(seen) and isinstance(seen[-1].get("arg"), Instance) and isinstance(fp, cm.FunctionVal) and mat_equal(w.sl(fp.outs[0], 0, 3), w.param(seen[-1]["arg"]))
     rep.check("C11.valid", "predict: propagated MRP passes through the shadow switch after the RK4 step and is written back", good, "predicted attitude is not shadow-switched after integration", where=W)
+    from .c03 import is_shadowed
+    sh_ok, sh_why = is_shadowed(w.sl(x1, 0, 3))
+    rep.check("C11.valid", "predict: the returned MRP has the form if_else(|b|^2 > 1, -b/|b|^2, b)", sh_ok,
+              "the value returned by predict is not shadow-switched (%s): a helper that returns a new element instead of modifying its argument leaves the caller's element untouched" % sh_why, where=W)
     rep.check("C11.valid", "predict: gyro bias is constant over a noise-free prediction", mat_equal(w.sl(x1, 3, 6), w.sl(I["x"], 3, 6)), "bias changes in the noise-free prediction", where=W)
     n = W1.r
     upper = [(i, j) for i in range(n) for j in range(n) if j > i and W1.cells[i][j].t]
